@@ -118,7 +118,8 @@ def o_aux(a):
     off, span = a.get('offset', 0.), a.get('span', 1.)
     aux = off + numpy.linspace(0., span, na)
     rel = lambda aa: (numpy.asarray(aa, dtype=float) - off) / span
-    pdf = lambda xx, aa: (1. + rel(aa)) * numpy.exp(-0.5 * ((xx - 3. - 4. * rel(aa)) / (1. + rel(aa))) ** 2) + 0.05
+    scale = a.get('scale', 1.)       # a density need not be normalised: fluxes in physical units are 1e-9, 1e-12 …
+    pdf = lambda xx, aa: scale * ((1. + rel(aa)) * numpy.exp(-0.5 * ((xx - 3. - 4. * rel(aa)) / (1. + rel(aa))) ** 2) + 0.05)
     if a.get('table'):
         table = numpy.array([[float(pdf(xi, ai)) for ai in aux] for xi in x])          # documented layout: (len(rv), len(aux))
         gen = xUnivariateAuxGenerator(x, aux, table, kx=1, ky=1)
@@ -143,7 +144,7 @@ def o_aux(a):
         if numpy.abs(s1 - sl).max() > (0.05 if av not in aux else 1e-9) * sl.max():
             bad.append('aux=%r: slice() differs from the density at that auxiliary value by %.3g' % (av, float(numpy.abs(s1 - sl).max())))
     try:
-        xUnivariateAuxGenerator(x, aux, lambda xx, aa: pdf(xx, aa) - 0.5, kx=1, ky=1)
+        xUnivariateAuxGenerator(x, aux, lambda xx, aa: pdf(xx, aa) - 0.5 * scale, kx=1, ky=1)
         bad.append('a bivariate density that is negative somewhere was accepted')
     except SystemExit:
         pass
@@ -201,7 +202,7 @@ def explore(chk, budget=1):
             yn = y.copy()
             yn[int(g.integers(0, len(y)))] = -float(g.choice([1e-9, 0.5]))
             run_oracle(chk, 'negative', dict(x=x.tolist(), y=yn.tolist(), k=int(g.choice([1, 3])) if len(x) > 3 else 1))
-    for extra in (dict(), dict(offset=1.5e8, span=5000., na=11), dict(table=True, nx=41, na=6), dict(table=True, nx=41, na=41), dict(table=True, nx=24, na=24), dict(table=True, nx=16, na=16, offset=1.5e8, span=5000.)):
+    for extra in (dict(), dict(scale=1e-9), dict(scale=1e-12, table=True, nx=41, na=6), dict(offset=1.5e8, span=5000., na=11), dict(table=True, nx=41, na=6), dict(table=True, nx=41, na=41), dict(table=True, nx=24, na=24), dict(table=True, nx=16, na=16, offset=1.5e8, span=5000.)):
         run_oracle(chk, 'aux', dict(seed=int(g.integers(1, 10 ** 6)), **extra))
     replies = drv.run()
     for (x, y, us, xs, ip, ic, nx, ny), rep in zip(jobs, replies):
